@@ -13,7 +13,8 @@ environment event, the outcome what a fair round-robin schedule reaches); the ti
 included.  The specification (lean/Mqtt/Spec/Lifecycle.lean) is the property text: teardown complete, will unless
 DISCONNECT, bystander alive, Server.Close returns, no goroutine left.  The oracle ignores the `held-up-by-*`
 tokens: they mark the property's exemption (a still-open connection that has stopped reading holds up a
-delivery from the subject; the harness then ends that connection and the teardown has to complete).
+delivery from the subject; the harness then ends that connection and the teardown has to complete) -
+except when the cause is Server.Close, whose return the property demands without exemption.
 """
 from .props import Prop, Run, register, COMMON_TRUSTED
 
@@ -25,6 +26,11 @@ def _strip(line):
 
 
 def life_oracle(op, impl, spec):
+    w = op.split()
+    if len(w) >= 4 and w[3] == 'srvclose':
+        # "Server.Close returns" carries no exemption: a Close that was still waiting behind a third
+        # party's client when the harness gave up on it (token held-up-by-third) has failed
+        return impl == spec
     return _strip(impl) == spec
 
 
